@@ -107,6 +107,25 @@ func c10Ops() []c10Op {
 
 var c10OpList = c10Ops()
 
+// long-values (exhaustive): the key f holds a string whose length sits on
+// either side of a power of two (255 .. 65537 bytes), put there in six ways;
+// then every operation of the table that touches f runs once, the invariants
+// are checked, the key is dropped / renamed on copies, and written once more.
+var c10LongSizes = []int{255, 256, 257, 1023, 1024, 1025, 4095, 4096, 4097, 65535, 65536, 65537}
+var c10LongSetups = []string{"initial field", "initial tag", "initial json field", "add_key", "set_tag", "variable"}
+
+func c10LongOps() []c10Op {
+	var out []c10Op
+	for _, op := range c10OpList {
+		if strings.Contains(op.Text, "(f") || strings.Contains(op.Text, ", f)") || strings.Contains(op.Text, "(_") {
+			if !strings.HasPrefix(op.Text, "add_key(f, ") || strings.HasPrefix(op.Text, "add_key(f, 5") {
+				out = append(out, op)
+			}
+		}
+	}
+	return out
+}
+
 func c10Depth(tier string) int {
 	if tier == "thorough" {
 		return 3
@@ -122,6 +141,7 @@ func (c10) Plan(tier string, seed int64) []mon.Workload {
 	return []mon.Workload{
 		{Name: "bfs", N: int64(len(c10OpList) * len(c10Inits)), Exhaustive: true},
 		{Name: "random", N: rnd},
+		{Name: "long-values", N: int64(len(c10LongSizes) * len(c10LongSetups) * len(c10LongOps())), Exhaustive: true},
 	}
 }
 
@@ -438,6 +458,57 @@ func (k c10) Run(c *mon.Ctx, workload string, i int64) {
 			return false
 		}
 		return true
+	}
+	if workload == "long-values" {
+		ops := c10LongOps()
+		op := ops[int(i)%len(ops)]
+		i /= int64(len(ops))
+		setup := c10LongSetups[int(i)%len(c10LongSetups)]
+		size := c10LongSizes[int(i)/len(c10LongSetups)]
+		long := strings.Repeat("abcdefgh", size/8+1)[:size]
+		fields, tags := map[string]any{"message": "abc 12", "n1": int64(3)}, map[string]string{"t": "tv"}
+		hist := []string{fmt.Sprintf("(f holds a %d-byte string, set up by: %s)", size, setup)}
+		switch setup {
+		case "initial field":
+			fields["f"] = long
+		case "initial tag":
+			tags["f"] = long
+		case "initial json field":
+			fields["f"] = "[\"" + long[:size-4] + "\"]"
+		}
+		pt := input.InitPt(&input.Point{}, "m", tags, fields, time.Unix(1700000000, 0))
+		switch setup {
+		case "add_key":
+			if !step(c10Op{Text: "add_key(f, \"" + long + "\")"}, pt, hist) {
+				return
+			}
+		case "set_tag":
+			if !step(c10Op{Text: "set_tag(f, \"" + long + "\")"}, pt, hist) {
+				return
+			}
+		case "variable":
+			if !step(c10Op{Text: "f = \"" + long + "\"\nadd_key(f)"}, pt, hist) {
+				return
+			}
+		}
+		c.Nontrivial(fmt.Sprint(size, setup, op.Text))
+		c.Cell("long_value_sizes", fmt.Sprint(size))
+		hist = append(hist, strings.ReplaceAll(op.Text, "\n", "; "))
+		if !step(op, pt, hist) {
+			return
+		}
+		if cl, d := c10Redo(pt); cl != "" {
+			fail(cl, d, hist, pt)
+			return
+		}
+		// and one more ordinary write of the same key afterwards
+		for _, t := range []string{"set_tag(f, \"short\")", "add_key(f, 1)"} {
+			q := clonePoint(pt)
+			if !step(c10Op{Text: t}, q, append(hist, t)) {
+				return
+			}
+		}
+		return
 	}
 	if workload == "random" {
 		pt := c10Inits[c.R.Intn(len(c10Inits))]()
